@@ -424,7 +424,10 @@ def t5_accounting(ck):
     ck.req(good, "T5.initial", "with_bucket_count", wbc.where(), "a new table does not start with used_slots == 0 (%s)" % (show(rt) if rt else "?"))
     # entries() / max_entries()
     en = ck.body(TABLE + "::entries", "T5")
-    ck.req(return_term(prog, en) == ("field", ("param", 1), "used_slots"), "T5.entries", "entries()", en.where(), "entries() does not return used_slots")
+    ert = return_term(prog, en)
+    while ert is not None and ert[0] == "cast":
+        ert = ert[2]      # a widening/narrowing of the counter's integer type
+    ck.req(ert == ("field", ("param", 1), "used_slots"), "T5.entries", "entries()", en.where(), "entries() does not return used_slots")
     me = ck.body(TABLE + "::max_entries", "T5")
     rt = return_term(prog, me)
     bsz = ck.const(BUCKET + "::BUCKET_SIZE", "T5")
@@ -479,8 +482,9 @@ def t7_lock_discipline(ck):
     # call sites of the table's methods outside the table itself
     sites = 0
     for b in ws_bodies(prog, ("weechess_engine",)):
-        if fn_of(prog, b).name.startswith(TABLE + "::"):
-            continue
+        home = fn_of(prog, b)
+        if home.name.startswith(TABLE + "::") or (home.j.get("impl_of") or {}).get("self_ty") == TABLE:
+            continue     # the table's own methods and trait impls work on a reference that is already guarded
         tb = None
         for bb, t in live_calls(b):
             n = callee_name(t)
